@@ -426,7 +426,7 @@ fn header_text(version: &str, contigs: &[(String, usize)], samples: &[String], f
     t
 }
 
-fn rand_info(rng: &mut Rng, n_alt: usize) -> Vec<(String, Val)> {
+fn rand_info(rng: &mut Rng, n_alt: usize, long: bool) -> Vec<(String, Val)> {
     let mut out: Vec<(String, Val)> = Vec::new();
     let keys = ["NS", "DP", "AF", "AC", "DB", "H2", "MQ", "XS", "XL", "XI", "XF", "XC", "X2"];
     let n = match rng.below(4) {
@@ -437,6 +437,15 @@ fn rand_info(rng: &mut Rng, n_alt: usize) -> Vec<(String, Val)> {
     let mut idx: Vec<usize> = (0..keys.len()).collect();
     rng.shuffle(&mut idx);
     let mut chosen: Vec<usize> = idx.into_iter().take(n).collect();
+    if long {
+        // the multi-block sets: every record carries the long String / String-list / Integer-list values
+        for k in ["XS", "XL", "XI"] {
+            let i = keys.iter().position(|x| *x == k).unwrap();
+            if !chosen.contains(&i) && (k == "XS" || rng.chance(2, 3)) {
+                chosen.push(i);
+            }
+        }
+    }
     chosen.sort();
     for k in chosen {
         let v = match keys[k] {
@@ -451,12 +460,14 @@ fn rand_info(rng: &mut Rng, n_alt: usize) -> Vec<(String, Val)> {
                 if n_alt == 0 {
                     continue;
                 }
-                // an INFO key whose value is missing altogether (`AC=.`) makes the BCF writer panic
-                // (todo!): see the witness class `witness-info-missing-value`; entry 0 is always present
-                Val::IntArr((0..n_alt).map(|i| if i > 0 && rng.chance(1, 4) { None } else { Some(int(rng)) }).collect())
+                // any entry may be missing, also all of them (`AC=.`, regression class `witness-info-missing-value`)
+                Val::IntArr((0..n_alt).map(|_| if rng.chance(1, 4) { None } else { Some(int(rng)) }).collect())
             }
             "DB" | "H2" => Val::Flag,
             "MQ" => Val::Float(flt(rng)),
+            "XS" if long => Val::Str(word(rng, 100, 400)),
+            "XL" if long => Val::StrArr((0..rng.urange(2, 5)).map(|_| word(rng, 30, 120)).collect()),
+            "XI" if long => Val::IntArr((0..rng.urange(10, 40)).map(|_| Some(int(rng))).collect()),
             "XS" => Val::Str(word(rng, 1, 16)),
             "XL" => Val::StrArr((0..rng.urange(1, 4)).map(|_| word(rng, 1, 8)).collect()),
             "XI" => Val::IntArr((0..rng.urange(1, 5)).map(|_| Some(int(rng))).collect()),
@@ -470,8 +481,7 @@ fn rand_info(rng: &mut Rng, n_alt: usize) -> Vec<(String, Val)> {
     out
 }
 
-/// Common-model genotype: `ploidy` alleles; a phased separator never precedes a missing allele
-/// (see the witness class `witness-gt-phased-missing-allele`).
+/// Common-model genotype: `ploidy` alleles, any of them missing, phased or not.
 fn rand_gt(rng: &mut Rng, n_alt: usize, ploidy: usize) -> Val {
     let phased_all = rng.chance(1, 3);
     Val::Gt(
@@ -479,27 +489,28 @@ fn rand_gt(rng: &mut Rng, n_alt: usize, ploidy: usize) -> Val {
             .map(|i| {
                 // a lone `.` is the missing value in VCF text, and the BCF writer rejects a missing GT
                 // ("invalid input parameter"): a haploid genotype always names its allele
-                let a = if rng.chance(1, 8) && !(phased_all && i > 0) && ploidy > 1 { None } else { Some(rng.usize_below(n_alt + 1)) };
+                let a = if rng.chance(1, 8) && ploidy > 1 { None } else { Some(rng.usize_below(n_alt + 1)) };
                 (a, i > 0 && phased_all)
             })
             .collect(),
     )
 }
 
-fn rand_record(rng: &mut Rng, contigs: &[(String, usize)], n_samples: usize, full: bool) -> Var {
+fn rand_record(rng: &mut Rng, contigs: &[(String, usize)], n_samples: usize, full: bool, long: bool) -> Var {
     let (chrom, clen) = rng.pick(contigs).clone();
     let pos = rng.urange(1, clen);
     let ids = match rng.below(4) {
+        _ if long && rng.chance(1, 2) => vec![format!("rs{}", rng.below(100000)), format!("id_{}", word(rng, 20, 90))],
         0 => vec![format!("rs{}", rng.below(100000))],
         1 => vec![format!("rs{}", rng.below(100000)), format!("id_{}", word(rng, 1, 6))],
         _ => Vec::new(),
     };
-    let hi = if rng.chance(1, 5) { 12 } else { 1 };
+    let hi = if long && rng.chance(1, 3) { 250 } else if rng.chance(1, 5) { 12 } else { 1 };
     let refb = bases(rng, 1, hi);
     let n_alt = *rng.pick(&[0usize, 1, 1, 1, 2, 3]);
     let mut alts: Vec<String> = Vec::new();
     while alts.len() < n_alt {
-        let hi = if rng.chance(1, 4) { 9 } else { 1 };
+        let hi = if long && rng.chance(1, 3) { 200 } else if rng.chance(1, 4) { 9 } else { 1 };
         let a = bases(rng, 1, hi);
         if a != refb && !alts.contains(&a) {
             alts.push(a);
@@ -520,7 +531,7 @@ fn rand_record(rng: &mut Rng, contigs: &[(String, usize)], n_samples: usize, ful
             _ => Some(vec!["q10".into(), "s50".into()]),
         }
     };
-    let info = if full { rand_info(rng, n_alt) } else { Vec::new() };
+    let info = if full { rand_info(rng, n_alt, long) } else { Vec::new() };
     let (mut format, mut samples) = (Vec::new(), Vec::new());
     if n_samples > 0 && full {
         let opt = ["GQ", "DP", "AD", "PL", "XV", "XW", "XG", "XT"];
@@ -529,7 +540,7 @@ fn rand_record(rng: &mut Rng, contigs: &[(String, usize)], n_samples: usize, ful
             format.push("GT".to_string());
         }
         for k in opt {
-            if rng.chance(1, 3) {
+            if rng.chance(1, 3) || (long && k == "XT") || (long && matches!(k, "PL" | "XV") && rng.chance(1, 2)) {
                 format.push(k.to_string());
             }
         }
@@ -537,53 +548,36 @@ fn rand_record(rng: &mut Rng, contigs: &[(String, usize)], n_samples: usize, ful
             format.push("DP".to_string());
         }
         let ploidy = *rng.pick(&[1usize, 2, 2, 2, 2, 3]);
-        // Number=. arrays have one length per record: piping a lazily read BCF record whose per-sample
-        // vectors differ in length into the BCF writer corrupts the stream (witness class
-        // `witness-sample-arrays-of-unequal-length`)
-        let (xv_len, xg_len) = (rng.urange(1, 5), rng.urange(1, 4));
-        // a sample column that is `.` altogether (single FORMAT key, value missing) is written as an
-        // empty column when a lazily read VCF record is piped into the VCF writer (witness class
-        // `witness-sample-column-missing`)
-        let single_key = format.len() == 1;
-        for si in 0..n_samples {
+        for _ in 0..n_samples {
             let mut row: Vec<Option<Val>> = Vec::new();
             for k in &format {
                 // the BCF writer rejects a missing per-sample value of a String or Float-array field
-                // ("missing String values"): not a value BCF (as noodles writes it) can represent
-                // an Integer-array field that is missing in *every* sample of a record desynchronises the
-                // BCF stream (see the witness class `witness-format-int-array-missing-in-all-samples`):
-                // the first sample always has a value
-                // ... and a value may only be missing where the other samples' vectors have one entry (same
-                // root cause as `witness-sample-arrays-of-unequal-length`: `.` is a vector of length one)
-                let vec_len = match k.as_str() {
-                    "AD" => n_alt + 1,
-                    "PL" => (n_alt + 1) * (n_alt + 2) / 2,
-                    "XV" => xv_len,
-                    _ => 1,
-                };
-                let keep = matches!(k.as_str(), "GT" | "XG" | "XT") || (si == 0 && matches!(k.as_str(), "AD" | "PL" | "XV")) || vec_len > 1;
-                let missing = !keep && !single_key && rng.chance(1, 10);
+                // ("missing String values") and a missing GT: not values BCF (as noodles writes it) can
+                // represent. Everything else may be missing, also in every sample and also when it is the
+                // only FORMAT key (regression classes witness-format-int-array-missing-in-all-samples,
+                // witness-sample-column-missing)
+                let missing = !matches!(k.as_str(), "GT" | "XG" | "XT") && rng.chance(1, 10);
                 if missing {
                     row.push(None);
                     continue;
                 }
                 let v = match k.as_str() {
-                    // samples of one record share the ploidy or are haploid (mixed ploidies >= 2: see
-                    // the witness class `witness-gt-mixed-ploidy`)
+                    // mostly the record's ploidy, sometimes another one (regression class witness-gt-mixed-ploidy)
                     "GT" => {
-                        let p = if rng.chance(1, 6) { 1 } else { ploidy };
+                        let p = if rng.chance(1, 5) { *rng.pick(&[1usize, 2, 3, 4]) } else { ploidy };
                         rand_gt(rng, n_alt, p)
                     }
                     "GQ" | "DP" => Val::Int(int(rng).abs()),
-                    // entry 0 is always present: `[.]` is the text `.`, i.e. the missing value (see vec_len above)
-                    "AD" => Val::IntArr((0..n_alt + 1).map(|i| if i > 0 && rng.chance(1, 8) { None } else { Some(int(rng).abs()) }).collect()),
+                    "AD" => Val::IntArr((0..n_alt + 1).map(|_| if rng.chance(1, 8) { None } else { Some(int(rng).abs()) }).collect()),
                     "PL" => {
                         let g = (n_alt + 1) * (n_alt + 2) / 2;
                         Val::IntArr((0..g).map(|_| Some(rng.range(0, 70000) as i32)).collect())
                     }
-                    "XV" => Val::IntArr((0..xv_len).map(|_| Some(int(rng))).collect()),
+                    // per-sample vectors of unequal length (regression class witness-sample-arrays-of-unequal-length)
+                    "XV" => Val::IntArr((0..if long { rng.urange(5, 30) } else { rng.urange(1, 5) }).map(|_| Some(int(rng))).collect()),
                     "XW" => Val::Float(flt(rng)),
-                    "XG" => Val::FloatArr((0..xg_len).map(|_| Some(flt(rng))).collect()),
+                    "XG" => Val::FloatArr((0..rng.urange(1, 4)).map(|_| Some(flt(rng))).collect()),
+                    "XT" if long => Val::Str(word(rng, 40, 200)),
                     "XT" => Val::Str(word(rng, 1, 10)),
                     _ => unreachable!(),
                 };
@@ -604,7 +598,7 @@ pub const DET_CLASSES: &[&str] = &[
     "multi-contig",
     "multi-sample",
     "multi-block",
-    // minimal sets for shapes the random part avoids because they hit understood defects
+    // minimal regression sets of defects that were repaired (the shapes are part of the random model again)
     "witness-gt-mixed-ploidy",
     "witness-gt-phased-missing-allele",
     "witness-format-int-array-missing-in-all-samples",
@@ -634,48 +628,50 @@ pub fn make_set(class: &str, seed: u64) -> VSet {
         }
         "one-site-only" => {
             let c = mk_contigs(rng, 1);
-            let r = rand_record(rng, &c, 0, true);
+            let r = rand_record(rng, &c, 0, true, false);
             (header_text(version, &c, &[], true), c, Vec::new(), vec![r])
         }
         "one-with-sample" => {
             let c = mk_contigs(rng, 1);
             let s = mk_samples(1);
-            let r = rand_record(rng, &c, 1, true);
+            let r = rand_record(rng, &c, 1, true, false);
             (header_text(version, &c, &s, true), c, s, vec![r])
         }
         "sites-only" => {
             let c = { let k = rng.urange(1, 3); mk_contigs(rng, k) };
             let n = rng.urange(2, 150);
-            let recs = (0..n).map(|_| rand_record(rng, &c, 0, true)).collect();
+            let recs = (0..n).map(|_| rand_record(rng, &c, 0, true, false)).collect();
             (header_text(version, &c, &[], true), c, Vec::new(), recs)
         }
         "many-mixed" => {
             let c = { let k = rng.urange(1, 3); mk_contigs(rng, k) };
             let s = { let k = rng.urange(1, 3); mk_samples(k) };
             let n = rng.urange(10, 200);
-            let recs = (0..n).map(|_| rand_record(rng, &c, s.len(), true)).collect();
+            let recs = (0..n).map(|_| rand_record(rng, &c, s.len(), true, false)).collect();
             (header_text(version, &c, &s, true), c, s, recs)
         }
         "multi-contig" => {
             let c = { let k = rng.urange(3, 12); mk_contigs(rng, k) };
             let s = { let k = rng.urange(0, 2); mk_samples(k) };
             let n = rng.urange(8, 120);
-            let recs = (0..n).map(|_| rand_record(rng, &c, s.len(), true)).collect();
+            let recs = (0..n).map(|_| rand_record(rng, &c, s.len(), true, false)).collect();
             (header_text(version, &c, &s, true), c, s, recs)
         }
         "multi-sample" => {
             let c = mk_contigs(rng, 2);
             let s = { let k = rng.urange(3, 12); mk_samples(k) };
             let n = rng.urange(5, 80);
-            let recs = (0..n).map(|_| rand_record(rng, &c, s.len(), true)).collect();
+            let recs = (0..n).map(|_| rand_record(rng, &c, s.len(), true, false)).collect();
             (header_text(version, &c, &s, true), c, s, recs)
         }
-        // VCF text well above 64 KiB so that the BGZF variants have several blocks
+        // >= 300 KiB of VCF text (>= 5 BGZF blocks in VCF.gz) made of long INFO String / String-list /
+        // Integer-list values, long FORMAT strings and vectors, long IDs and alleles, so that every kind of
+        // value straddles block boundaries
         "multi-block" => {
             let c = mk_contigs(rng, 3);
             let s = mk_samples(4);
-            let n = rng.urange(900, 1300);
-            let recs = (0..n).map(|_| rand_record(rng, &c, s.len(), true)).collect();
+            let n = rng.urange(330, 420);
+            let recs = (0..n).map(|_| rand_record(rng, &c, s.len(), true, true)).collect();
             (header_text(version, &c, &s, true), c, s, recs)
         }
         "witness-gt-mixed-ploidy"
